@@ -1122,6 +1122,24 @@ func extractPrefixCommentsAndRewrite(sql string, version *util.VersionCompareSta
 	return trimmed, comments
 }
 
+// hasSelectLockClause reports whether the tokens contain `for update`, `for share` or
+// `lock in share mode`. The clause is searched in the whole token list instead of only the
+// last two tokens, because a trailing comment (`... for update /* trace */`), `OF tbl_name`,
+// NOWAIT or SKIP LOCKED may follow it. A false positive only sends a read to the master.
+func hasSelectLockClause(tokens []string) bool {
+	for i := 1; i < len(tokens); i++ {
+		prev := strings.ToLower(tokens[i-1])
+		cur := strings.ToLower(tokens[i])
+		if prev == "for" && (cur == "update" || cur == "share") {
+			return true
+		}
+		if prev == "share" && cur == "mode" {
+			return true
+		}
+	}
+	return false
+}
+
 // master-slave routing
 func checkExecuteFromSlave(reqCtx *util.RequestContext, c *SessionExecutor, sql string) bool {
 	stmtType := reqCtx.GetStmtType()
@@ -1143,13 +1161,7 @@ func checkExecuteFromSlave(reqCtx *util.RequestContext, c *SessionExecutor, sql 
 		if len(tokens) < 2 {
 			return true
 		}
-		lastFirstWord := strings.ToLower(tokens[tokensLen-1])
-		lastSecondWord := strings.ToLower(tokens[tokensLen-2])
-		if (lastFirstWord == "update" && lastSecondWord == "for") ||
-			(lastFirstWord == "mode" && lastSecondWord == "share") ||
-			(lastFirstWord == "share" && lastSecondWord == "for") ||
-			(lastFirstWord == "nowait" && (lastSecondWord == "share" || lastSecondWord == "update")) ||
-			(lastFirstWord == "locked" && lastSecondWord == "skip") {
+		if hasSelectLockClause(tokens) {
 			return false
 		}
 	}
@@ -1385,7 +1397,7 @@ func (se *SessionExecutor) handleShow(reqCtx *util.RequestContext, sql string) (
 		reqCtx.SetFromSlave(true)
 	}
 	// handle show variables like '%read_only%' default to master
-	if strings.Contains(sql, readonlyVariable) && se.GetNamespace().IsAllowWrite(se.user) {
+	if strings.Contains(strings.ToLower(sql), readonlyVariable) && se.GetNamespace().IsAllowWrite(se.user) {
 		reqCtx.SetFromSlave(false)
 	}
 	r, err := se.ExecuteSQL(reqCtx, se.GetNamespace().GetDefaultSlice(), se.db, sql)
